@@ -40,6 +40,8 @@ pub struct Mon {
     pub scanned: usize,
     pub pauses: usize,
     pub queued: Vec<String>,
+    /// T events so far (one keep-alive interval of virtual time each).
+    pub ticks: usize,
 }
 
 pub const PLAIN: [&str; 7] = ["Bitfield", "Interested", "NotInterested", "Unchoke", "Request", "Have", "KeepAlive"];
@@ -144,6 +146,10 @@ impl Scenario for Hs {
     }
     fn enabled(&self, w: &World, mon: &Mon, _depth: usize) -> Vec<String> {
         let mut v = if w.peers[0].ended.get() { vec![] } else { self.symbols() };
+        // T: one keep-alive interval passes (plain variants; the connection is over after three)
+        if !w.peers[0].ended.get() && !(self.downloader || self.crowded || self.fullqueue) && mon.ticks < 3 {
+            v.push("T".to_string());
+        }
         if self.downloader && w.peers[1].msgs.iter().filter(|m| matches!(m, Msg::Request(..))).count() > mon.d_answered {
             v.push("Dp".to_string());
         }
@@ -159,6 +165,9 @@ impl Scenario for Hs {
     fn concretize(&self, w: &World, mon: &Mon, sym: &str) -> Vec<Ev> {
         if sym == "R" {
             return vec![Ev::Rotate];
+        }
+        if sym == "T" {
+            return vec![Ev::AdvanceTo((mon.ticks as u64 + 1) * 120_000 + 500)];
         }
         if sym == "Z" {
             return vec![Ev::PauseManager, Ev::FillQueue];
@@ -192,6 +201,9 @@ impl Scenario for Hs {
         if last == Some("Dp") {
             mon.d_answered += 1;
         }
+        if last == Some("T") {
+            mon.ticks += 1;
+        }
         match last {
             Some("Z") => mon.pauses += 1,
             Some("W") => mon.queued.clear(),
@@ -201,7 +213,7 @@ impl Scenario for Hs {
         if last == Some("Z") && w.queue_filled == 0 {
             return Some(("machinery", "the queue could not be filled".to_string()));
         }
-        if let Some(sym) = last.filter(|s| *s != "Dp" && *s != "R" && *s != "Z" && *s != "W") {
+        if let Some(sym) = last.filter(|s| *s != "Dp" && *s != "R" && *s != "Z" && *s != "W" && *s != "T") {
             mon.fed.extend(event_bytes(w, sym));
             let (decoded, _, _) = refwire::decode_stream(&mon.fed);
             let n_before = decoded.len();
@@ -264,7 +276,7 @@ impl Scenario for Hs {
         None
     }
     fn key(&self, w: &World, mon: &Mon) -> String {
-        format!("{} v={} r={:?} n={} d={} busy={} q={:?} z={}", w.default_key(), mon.valid_hs_fed, mon.rejected_at.is_some(), w.peers[0].msgs.len(), mon.d_answered, w.manager_paused, mon.queued, mon.pauses)
+        format!("{} v={} r={:?} n={} d={} busy={} q={:?} z={} t={}", w.default_key(), mon.valid_hs_fed, mon.rejected_at.is_some(), w.peers[0].msgs.len(), mon.d_answered, w.manager_paused, mon.queued, mon.pauses, mon.ticks)
     }
 }
 
